@@ -68,6 +68,9 @@ def input_job(job):
     ct = build_python(spec)
     tally = decide.Tally()
     out = dict(violations=[], inconclusive=[], obligations=[], src='')
+    if job.get('backend') == 'fortran':
+        from .. import f2pystub
+        f2pystub.install()
     try:
         c = tv.compile_template(ct, vectorize=job['vectorize'], step_size=float(dt), solver=job['solver'],
                                 inputs={job['target']: arr}, backend=job.get('backend', 'default'))
@@ -93,7 +96,10 @@ def input_job(job):
     if not adaptive:
         for k in range(N):
             vals = [U[k]] if cols == 0 else [U[k, cidx] for cidx in range(cols)]
-            res = tvspec.validate(spec, c, tally, vectorized=job['vectorize'], ext_inputs=ext_for(vals), t_sym=int(k),
+            # the step counter handed to the function is t0 + k (t0 = returned initial counter: 0 for the Python
+            # backends, 1 for Fortran, whose arrays are 1-based)
+            t0 = int(np.asarray(c.args[0]).reshape(-1)[0])
+            res = tvspec.validate(spec, c, tally, vectorized=job['vectorize'], ext_inputs=ext_for(vals), t_sym=int(k) + t0,
                                   extra_table=table, twin=(k == 0), label=f"@step{k}")
             _merge(out, res, f"step {k}")
     else:
